@@ -1027,7 +1027,7 @@ class BeaconConfig:
 
             ['/__utm.gif', '/en_US/all.js']
         """
-        return list(dict.fromkeys(uri for (_domain, uri) in self.domain_uri_pairs))
+        return list(dict.fromkeys(uri for (_domain, uri) in self.domain_uri_pairs if uri is not None))
 
     @property
     def domains(self) -> List[str]:
